@@ -262,10 +262,13 @@ PROPS["C19"] = dict(
     bounded_native=[dict(unit="kind_union", bound="23 object/array/scalar kinds (empty, exact, any, json / timestamp / integer unknowns, nested one level, mixed with null) pairwise x 19 values, judged by an independent membership predicate",
                          functions=["Kind::union -> Collection::merge -> Unknown::merge, Kind::is_superset, Kind::from(&Value)"],
                          text="Collection::merge itself (BTreeMap walk over known fields) is only assumed by the Verus unit: on the stated domain a value of either operand's kind belongs to the union, and a kind accepted by is_superset admits every value of the other"),
-                    dict(unit="kind_crud", bound="15 kinds x the listed values they admit x 12 paths (fields, nested, positive/negative/out-of-range indices) x 4 inserted (value, kind) pairs x prune on/off: 2408 cases",
+                    dict(unit="kind_crud", bound="20 kinds x the listed values they admit x 15 paths (fields, nested, positive/negative/out-of-range indices) x 4 inserted (value, kind) pairs x prune on/off, minus the two finding classes: 3465 cases; a panic of a type-level operation is a failing case",
                          functions=["Kind::at_path / insert (insert_recursive) / remove against Value::get / insert / remove"],
                          text="type-level get / insert / remove are out of both verifiers' reach (BTreeMap-backed recursion): on the stated domain what a value has at a path belongs to the type's view of the path, and the value after insertion / removal belongs to the type after insertion / removal (independent membership predicate)"),
-                    dict(unit="kind_crud_neg_insert", bound="the same domain restricted to insertions whose last segment is a negative index before the start of a non-empty array (28 cases)",
+                    dict(unit="kind_crud_optional_elems", bound="the same domain restricted to the array kinds with optional known elements ([integer?], [integer, string?], {a: [integer?]}; 840 cases)",
+                         functions=["Kind::at_path / insert / remove on arrays whose known elements may be absent"],
+                         text="the case class of the second recorded finding, kept apart so that any other failure of kind_crud is reported"),
+                    dict(unit="kind_crud_neg_insert", bound="the same domain restricted to operations whose last segment is a negative index before the start of a non-empty array (105 cases)",
                          functions=["Kind::insert_recursive, exactly-known array, negative index"],
                          text="the case class of the recorded finding, kept apart so that any other failure of kind_crud is reported")],
     trusted=["verus prelude kindmerge.rs: collections are abstract; Collection::merge under the union strategy is ASSUMED to admit every value either operand admits (checked only on the bounded domain kind_union); Option::or by definition; Kind::clone is the identity",
